@@ -206,6 +206,82 @@ func (g *fdGen) rule() string {
 	return b.String()
 }
 
+// ruleAbs: a rule of the supported grammar together with its abstract syntax
+//
+//	<in|out>,<ip|digits>,<addr>,<ports|->,<addr>,<ports|->   addr = any | assigned | a.b.c.d | a.b.c.d/l ; ports = item;item ; item = digits | digits-digits
+//
+// numerals are spelled with random leading zeros, tokens are separated by random runs of Go white space
+func (g *fdGen) ruleAbs() (string, string) {
+	r := g.r
+	numeral := func(max int) string {
+		v := []int{0, 1, max, max - 1, r.intn(max + 1), r.intn(max + 1)}[r.intn(6)]
+		s := strconv.Itoa(v)
+		if r.chance(20) {
+			s = strings.Repeat("0", 1+r.intn(3)) + s
+		}
+		return s
+	}
+	addr := func() string {
+		switch r.intn(6) {
+		case 0:
+			return "any"
+		case 1:
+			return "assigned"
+		}
+		oct := func() int { return []int{0, 255, r.intn(256), r.intn(256)}[r.intn(4)] }
+		ip := fmt.Sprintf("%d.%d.%d.%d", oct(), oct(), oct(), oct())
+		if r.chance(55) {
+			return ip + "/" + strconv.Itoa(r.intn(33))
+		}
+		return ip
+	}
+	ports := func() (string, string) {
+		if !r.chance(50) {
+			return "", "-"
+		}
+		n := 1 + r.intn(4)
+		var it []string
+		for i := 0; i < n; i++ {
+			if r.chance(40) {
+				it = append(it, numeral(65535)+"-"+numeral(65535))
+			} else {
+				it = append(it, numeral(65535))
+			}
+		}
+		return strings.Join(it, ","), strings.Join(it, ";")
+	}
+	dir := r.pick("in", "out")
+	proto := "ip"
+	if r.chance(80) {
+		proto = numeral(255)
+	}
+	src, dst := addr(), addr()
+	sp, spA := ports()
+	dp, dpA := ports()
+	toks := []string{"permit", dir, proto, "from", src}
+	if sp != "" {
+		toks = append(toks, sp)
+	}
+	toks = append(toks, "to", dst)
+	if dp != "" {
+		toks = append(toks, dp)
+	}
+	var b strings.Builder
+	if r.chance(15) {
+		b.WriteString(g.sp())
+	}
+	for i, t := range toks {
+		if i > 0 {
+			b.WriteString(g.sp())
+		}
+		b.WriteString(t)
+	}
+	if r.chance(15) {
+		b.WriteString(g.sp())
+	}
+	return b.String(), strings.Join([]string{dir, proto, src, spA, dst, dpA}, ",")
+}
+
 func runFlowDesc(c *ctx) {
 	g := &fdGen{r: c.rng}
 	n := 20000
@@ -228,6 +304,12 @@ func runFlowDesc(c *ctx) {
 	for i := 0; i < n; i++ {
 		c.count("grammar")
 		one(g.rule())
+	}
+	// rules of the grammar with their abstract syntax: here the specification says what the answer must be
+	for i := 0; i < n/2; i++ {
+		c.count("rule")
+		s, abs := g.ruleAbs()
+		c.emit("T fd.rule %s %s = %s", hexOrDash([]byte(s)), abs, fdParse(s))
 	}
 	// arbitrary ASCII and arbitrary bytes (incl. ':' / non-ASCII: outside the model, only "no fault" is claimed)
 	for i := 0; i < n/10; i++ {
